@@ -204,7 +204,10 @@ func vfJwtBuildKeySets() []*vfJwtKeySet {
 		k2 = append(k2, vfJwtRSAEntry("r3", mRsa3072, vfJwtLoadOrGenRSA(3072, 0)),
 			vfJwtRSAEntry("r4", mRsa4096, vfJwtLoadOrGenRSA(4096, 0)))
 	}
-	return []*vfJwtKeySet{set0, set1, vfJwtFinishSet(k2)}
+	// providers that publish exactly ONE key (an RSA one, an EC one): nothing but its kid selects it
+	one1 := vfJwtFinishSet([]*vfJwtKey{vfJwtRSAEntry("only-r", mRsaA, rsaA)})
+	one2 := vfJwtFinishSet([]*vfJwtKey{vfJwtECEntry("only-e", mEcA, ecA)})
+	return []*vfJwtKeySet{set0, set1, vfJwtFinishSet(k2), one1, one2}
 }
 
 // first entry of the set carrying this kid (the described selection rule)
@@ -1751,6 +1754,22 @@ func TestVF_Jwt(t *testing.T) {
 	for _, alg := range vfJwtStdAlgs {
 		for _, dv := range vfJwtDevs {
 			emit(&vfJwtCase{Kind: "single", Base: baseFor(alg), Devs: []string{dv.name}, DSeed: r.next()})
+		}
+	}
+
+	// every kid deviation against the single-key providers (one algorithm of the key's family each)
+	for ksi, ks := range sets {
+		if len(ks.Keys) != 1 {
+			continue
+		}
+		alg := "RS256"
+		if ks.Keys[0].ec != nil {
+			alg = "ES256"
+		}
+		for _, dv := range vfJwtDevs {
+			if strings.HasPrefix(dv.name, "kid-") {
+				emit(&vfJwtCase{Kind: "single-one-key", Base: vfJwtValidDesc(r, ksi, 0, alg), Devs: []string{dv.name}, DSeed: r.next()})
+			}
 		}
 	}
 
